@@ -64,9 +64,21 @@ pub fn fault_offset(ft: &mut Tape, len: u64) -> u64 {
 /// 1–2 terminal write faults (plus, sometimes, a benign background schedule)
 pub fn terminal_write(ft: &mut Tape, len: u64) -> (Policy, &'static str) {
     let mut p = if ft.chance(1, 3) { benign(ft) } else { Policy::plain() };
-    let kind = ft.draw(4);
+    let kind = ft.draw(7);
     let label;
     match kind {
+        4 => {
+            p.terms.push(Term { at: fault_offset(ft, len), kind: TermKind::Eagain, sticky: ft.chance(1, 2) });
+            label = "EAGAIN";
+        }
+        5 => {
+            p.terms.push(Term { at: fault_offset(ft, len), kind: TermKind::Zero, sticky: true });
+            label = "write-zero";
+        }
+        6 => {
+            p.terms.push(Term { at: fault_offset(ft, len), kind: TermKind::Timedout, sticky: ft.chance(1, 2) });
+            label = "ETIMEDOUT";
+        }
         0 => {
             p.terms.push(Term { at: fault_offset(ft, len), kind: TermKind::Eio, sticky: false });
             label = "EIO-once";
@@ -98,7 +110,8 @@ pub fn terminal_read(ft: &mut Tape, len: u64, allow_early_eof: bool) -> Policy {
         // the file shrank while being read: end-of-file arrives early although the size said otherwise
         p.eof_at = Some(fault_offset(ft, len));
     } else {
-        p.terms.push(Term { at: fault_offset(ft, len), kind: TermKind::Eio, sticky: ft.chance(1, 2) });
+        let kind = *ft.pick(&[TermKind::Eio, TermKind::Eio, TermKind::Eagain, TermKind::Timedout]);
+        p.terms.push(Term { at: fault_offset(ft, len), kind, sticky: ft.chance(1, 2) });
     }
     p
 }
@@ -106,7 +119,8 @@ pub fn terminal_read(ft: &mut Tape, len: u64, allow_early_eof: bool) -> Policy {
 pub fn writeback_sink(ft: &mut Tape) -> Policy {
     let mut p = if ft.chance(1, 2) { benign(ft) } else { Policy::plain() };
     p.writeback = true;
-    p.flush_eintr = ft.draw(3) as u32;
+    // 0..2 mostly; sometimes more than any plausible bounded retry loop would absorb
+    p.flush_eintr = *ft.pick(&[0u32, 1, 1, 2, 2, 3, 4, 7, 40]);
     p
 }
 pub fn policy_digest(p: &Policy) -> u64 {
